@@ -10,12 +10,12 @@ extern "C" {
 			uint16_t opcode, uint16_t expansion /*= 0*/) {
 		std::string r = Teakra::Disassembler::Do(opcode, expansion);
 
-		if (dst) {
+		if (dst && dstlen > 0) {
 			size_t i = 0;
 			for (; i < (dstlen-1) && i < r.length(); ++i) {
 				dst[i] = r[i];
 			}
-			dst[dstlen-1] = '\0';
+			dst[i] = '\0';
 		}
 
 		return r.length();
